@@ -29,7 +29,37 @@ def main():
             print(json.dumps(payload, indent=1))
             sys.exit(0)
         sys.exit(fn(payload))
-    sys.exit(run_pack(mod.run, a.pid, a.tier, a.seed))
+    rc = run_pack(mod.run, a.pid, a.tier, a.seed)
+    if a.tier == 'thorough' and not os.environ.get('VERIF_SELFTEST') and not os.environ.get('VERIF_NO_SELFTEST'):
+        if rc == 0:
+            selftest(a.pid)          # informational: recorded in the evidence, never changes the verdict
+    sys.exit(rc)
+
+
+def selftest(pid):
+    """thorough tier: the deliberate breakages of selftest/mutations.json that belong to this property are applied to scratch
+    copies of the tree and should each be reported by this very check (guards against contracts that prove too little).  The
+    outcome is recorded in the evidence and printed; it never changes the exit code (a solver timeout in one of the scratch runs on a
+    busy machine must not turn a held property into a failed check)."""
+    import tools_selftest
+    res = tools_selftest.run([pid])
+    missed = [r for r in res if r['result'] not in ('detected', 'not-applicable')]
+    evdir = os.environ.get('VERIF_EVIDENCE_DIR') or os.path.join(ROOT, 'evidence')
+    path = os.path.join(evdir, pid + '.json')
+    try:
+        with open(path) as f:
+            ev = json.load(f)
+        ev['coverage']['selftest'] = {'mutations': len(res), 'detected': len(res) - len(missed),
+                                      'undetected': [r['id'] for r in missed],
+                                      'what': 'deliberate breakages (reverted fix: commits and one-line mutations) applied to scratch '
+                                              'copies of the tree; each must make this check exit 1'}
+        with open(path, 'w') as f:
+            json.dump(ev, f, indent=1, default=str)
+    except Exception as e:      # noqa
+        print('selftest: could not record the result (%r)' % (e,))
+    print('SELFTEST %s: %d deliberate breakages, %d detected%s' % (pid, len(res), len(res) - len(missed),
+                                                                   ('; undetected: %s' % [r['id'] for r in missed]) if missed else ''))
+    return 0
 
 
 if __name__ == '__main__':
